@@ -74,6 +74,9 @@ def run(ctx: Context) -> None:
     ctx.rule(r2f_identity_comparisons)
     ctx.rule(r2g_constructor_keeps_components)
     ctx.rule(c04.r2_tables, pl)
+    # the resumed run continues from what was saved: every history field comes back through the persistence chain as itself (field plumbing of C04, history + counters)
+    from . import c18 as _c18
+    ctx.rule(_c18.restored_records_identity, ("current_batch_index", "n_sampled_params"))
     ctx.rule(c04.r5_picklable)
     ctx.rule(c04.r9_suffix_slices, pl)
     ctx.rule(c04.r7_restore_order, pl)
